@@ -228,6 +228,41 @@ impl Mode for BusMode {
                         }
                     }
                 }
+                // configuration-then-probe: a store to ONE plain register location (every address of the two
+                // register blocks, all-ones and each single bit), then a marker byte stored to and read back
+                // from probe addresses in every region and every hole: a plain location must not change how
+                // any other address decodes
+                {
+                    let regs: Vec<u32> = (0xfee00bu32..=0xfee0ff).chain(0xffff20..=0xffffcf).chain(0xffffdb..=0xffffe9).collect();
+                    let mut k = 0u64;
+                    for &ra in regs.iter() {
+                        for vi in 0..9u32 {
+                            k += 1;
+                            if !ctx.mine(k) {
+                                continue;
+                            }
+                            let val = if vi == 0 { 0xffu32 } else { 1 << (vi - 1) };
+                            let mut probes: Vec<u32> = vec![0x0, 0x23, 0xff, 0x100, 0x3fffff, 0x400000, 0x5fffff, 0x600000, 0xa00000, 0xfedfff, 0xfee010, 0xfee100, 0xffbf1f, 0xffbf20, 0xffe000, 0xffe023, 0xffefff, 0xffff1f, 0xffff30, 0xffffea, 0xffffff];
+                            for blk in 0..8u32 {
+                                probes.push(blk * 0x1000 + rng.range(0x100, 0xfff) as u32);
+                            }
+                            probes.push(rng.range(0x8000, 0x3fffff) as u32);
+                            probes.push(rng.range(0x400000, 0x5fffff) as u32);
+                            probes.push(rng.range(0x600000, 0xfedfff) as u32);
+                            probes.push(rng.range(0xffbf20, 0xffff1f) as u32);
+                            probes.retain(|&p| p != ra);
+                            let mut ops = vec![format!("w{:x}:{:x}", ra, val)];
+                            for (i, p) in probes.iter().enumerate() {
+                                ops.push(format!("w{:x}:{:x}", p, 0x21 + i));
+                            }
+                            for p in probes.iter() {
+                                ops.push(format!("r{:x}", p));
+                            }
+                            ops.push(format!("r{:x}", ra));
+                            emit(format!("bus09 {}", ops.join(";")));
+                        }
+                    }
+                }
                 // histories of interleaved writes and reads
                 let n = if ctx.quick() { 12_000 } else { 200_000 } / ctx.nshards;
                 for _ in 0..n {
